@@ -227,7 +227,28 @@ def check_joint(ctx, rep):
     if n < 2:
         rep.incomplete('C10.J', 'JointDistributionModel.log_prob::classification', where(m, fn), f"only {n} shape tests of the component value recognised")
     rets = [r for r in ast.walk(fn) if isinstance(r, ast.Return) and r.value is not None]
-    ok = len(rets) == 1 and ast.unparse(rets[0].value).replace(' ', '') in ('torch.cat(log_p,-1).sum(-1)', 'torch.cat(log_p,dim=-1).sum(-1)', 'torch.cat(log_p,-1).sum(dim=-1)')
+    acc = {c.func.value.id for st in ast.walk(loop) for c in [getattr(st, 'value', None)] if isinstance(st, ast.Expr) and isinstance(c, ast.Call)
+           and isinstance(c.func, ast.Attribute) and c.func.attr == 'append' and isinstance(c.func.value, ast.Name)}
+
+    def last_axis(c, pos):
+        a = c.args[pos] if len(c.args) > pos else next((k.value for k in c.keywords if k.arg == 'dim'), None)
+        return a is not None and ast.unparse(a) == '-1'
+
+    def cat_sum(v):
+        if not (isinstance(v, ast.Call) and isinstance(v.func, ast.Attribute) and v.func.attr == 'sum' and last_axis(v, 0)):
+            return False
+        c = v.func.value
+        return isinstance(c, ast.Call) and ast.unparse(c.func) == 'torch.cat' and c.args and isinstance(c.args[0], ast.Name) and c.args[0].id in acc and last_axis(c, 1)
+    ok = len(rets) == 1 and cat_sum(rets[0].value)
+    # the terms are sample_shape_i + (1,): broadcasting them against each other aligns them on the RIGHT, i.e. the sample axes of a term of lower rank with later axes of the others
+    after = fn.body[fn.body.index(loop) + 1:]
+    bc = [c for st in after for c in ast.walk(st) if isinstance(c, ast.Call) and (ast.unparse(c.func).split('.')[-1] in ('broadcast_tensors', 'broadcast_to', 'expand', 'expand_as'))
+          and any(isinstance(x, ast.Name) and x.id in acc for a in c.args for x in ast.walk(a))]
+    rep.check('C10.J', 'JointDistributionModel.log_prob::component-terms-are-not-broadcast-against-each-other', not bc, where(m, bc[0] if bc else fn),
+              {'accumulators': sorted(acc), 'statements_after_the_loop': len(after)},
+              f"`{norm_text(bc[0])[:70] if bc else ''}` broadcasts the per-component terms (each <its sample shape> + (1,)) against each other: broadcasting aligns on the right, so a "
+              f"term with fewer sample axes has its samples spread over another axis of the others — sample k of one component is added to sample (s, k) of the joint where the "
+              f"plain concatenation refuses the mix")
     rep.check('C10.J', 'JointDistributionModel.log_prob::components-added-along-the-last-axis-only', ok, where(m, fn), {'returned': norm_text(rets[0].value)[:80] if rets else None},
               "the joint density must concatenate the per-component terms along the last axis and sum that axis only")
 
@@ -241,6 +262,96 @@ FRONT_TABLE = {
     ('torchtree.evolution.substitution_model.general.EmpiricalSubstitutionModel.create_rate_matrix', 'torch.sum(Q, dim=1)'):
         "builds the fixed rate matrix once in the constructor from JSON numbers: Q is created as torch.zeros((n, n)), rank 2 by construction",
 }
+
+
+FOREIGN_GUARD_POSITIVE = """
+def p_t(self, t):
+    if len(self.frequencies.shape) == 1:
+        pi = self.frequencies.unsqueeze(0)
+        kappa = self.kappa.unsqueeze(0)
+    else:
+        pi = self.frequencies.unsqueeze(-2)
+        kappa = self.kappa.unsqueeze(-1)
+    return pi * kappa * t
+"""
+FOREIGN_GUARD_NEGATIVE = """
+def q(self):
+    raise NotImplementedError
+    if len(self.frequencies.shape) == 1:
+        kappa = self.kappa.unsqueeze(0)
+def q2(self):
+    if len(self.frequencies.shape[:-1]) != len(self.rates.shape[:-1]):
+        pi = self.frequencies.unsqueeze(0)
+    elif self.frequencies.dim() == 1:
+        rates = self.rates.unsqueeze(0)
+"""
+
+
+class _Hits(list):
+    examined = 0
+
+
+def _rank_subjects(test):
+    """texts of the values whose rank the test looks at: len(X.shape…), X.dim(), X.ndim"""
+    out = set()
+    for x in ast.walk(test):
+        if isinstance(x, ast.Call) and isinstance(x.func, ast.Name) and x.func.id == 'len' and x.args:
+            a = x.args[0]
+            while isinstance(a, ast.Subscript):
+                a = a.value
+            if isinstance(a, ast.Attribute) and a.attr == 'shape':
+                out.add(ast.unparse(a.value))
+        if isinstance(x, ast.Call) and isinstance(x.func, ast.Attribute) and x.func.attr in ('dim', 'ndimension') and not x.args:
+            out.add(ast.unparse(x.func.value))
+        if isinstance(x, ast.Attribute) and x.attr == 'ndim':
+            out.add(ast.unparse(x.value))
+    return out
+
+
+def _foreign_rank_guards(fn, count=False):
+    from sa.cfg import CFG
+    hits = _Hits()
+    cands = []
+    if not hasattr(fn.body[0], '_parent'):
+        for par in ast.walk(fn):
+            for ch in ast.iter_child_nodes(par):
+                ch._parent = par
+    for c in ast.walk(fn):
+        if isinstance(c, ast.Call) and isinstance(c.func, ast.Attribute) and c.func.attr == 'unsqueeze' and c.args and isinstance(c.args[0], ast.Constant) and c.args[0].value == 0 \
+                and not isinstance(c.args[0].value, bool):
+            torch_fn = isinstance(c.func.value, ast.Name) and c.func.value.id == 'torch'
+            operand = c.func.value if not torch_fn else None
+            if operand is None or not (isinstance(operand, ast.Attribute) and isinstance(operand.value, ast.Name) and operand.value.id == 'self'):
+                continue        # a parameter / model attribute of the object: the values that arrive batched
+            cands.append((c, ast.unparse(operand)))
+    if not cands:
+        return hits
+    live = None
+    for c, operand in cands:
+        subjects, p, stmt = set(), c, None
+        while p is not fn and p is not None:
+            par = getattr(p, '_parent', None)
+            if isinstance(par, (ast.If, ast.IfExp)) and p is not par.test:
+                subjects |= _rank_subjects(par.test)
+                # an elif chain: the tests that failed before this branch constrain it as well
+            if isinstance(p, ast.stmt) and stmt is None:
+                stmt = p
+            p = par
+        # tests of enclosing `if`s whose else-branch we are in are found above (p is in par.orelse); their subjects count too
+        if not subjects:
+            continue
+        hits.examined += 1
+        if operand in subjects:
+            continue
+        if live is None:
+            cfg = CFG(fn)
+            live = cfg.reachable(cfg.entry)
+            by = cfg.by_stmt
+        node = by.get(id(stmt))
+        if node is not None and node.id not in live:
+            continue            # dead code (after an unconditional raise / return)
+        hits.append((c, operand, sorted(subjects)[0]))
+    return hits
 
 
 def check_front_axes(ctx, rep, only=None):
@@ -332,6 +443,31 @@ def check_front_axes(ctx, rep, only=None):
                     rep.bad('C10.P', f"{mname.replace('torchtree.', '')}.{scope}::{txt[:60]}", where(m, c), {'axes': vals},
                             f"{scope}: `{txt[:70]}` exchanges axis {vals[0]} with axis {vals[1]} — one counted from the front, one from the end — on a value that can carry sample "
                             f"dimensions: which axis the front index hits depends on the number of sample dimensions; with [S, K] it is a sample axis and the samples are permuted")
+    # axis 0 of a value that may carry sample dimensions is its first SAMPLE axis unless the value is known to have none: `x.unsqueeze(0)` under a test of the rank of x is
+    # the un-batched branch; under a test of the rank of ANOTHER value it is applied to x whatever its own sample shape ([S,1] -> [1,S,1]: the samples of x slide onto the
+    # next axis of whatever it is combined with)
+    if len(_foreign_rank_guards(ast.parse(FOREIGN_GUARD_POSITIVE).body[0])) != 1 or any(_foreign_rank_guards(f_) for f_ in ast.parse(FOREIGN_GUARD_NEGATIVE).body):
+        raise AnalysisError('C10.P self-check: axis-0 operations under the rank test of another value are not recognised as expected')
+    g = 0
+    for mname, m in sorted(ctx.prog.modules.items()):
+        if not any(mname.startswith(p) or mname == p.rstrip('.') for p in SCOPE_PACKAGES):
+            continue
+        if only is not None and not only(mname):
+            continue
+        for fn in ast.walk(m.tree):
+            if not isinstance(fn, ast.FunctionDef) or fn.name in SKIP_METHODS:
+                continue
+            cl = getattr(fn, '_parent', None)
+            scope = f"{cl.name}.{fn.name}" if isinstance(cl, ast.ClassDef) else fn.name
+            hits = _foreign_rank_guards(fn, count=True)
+            g += hits.examined
+            for c, operand, tested in hits:
+                txt = norm_text(c)
+                rep.bad('C10.P', f"{mname.replace('torchtree.', '')}.{scope}::{txt[:60]}::axis-0-under-the-rank-test-of-another-value", where(m, c), {'tested': tested},
+                        f"{scope}: `{txt[:60]}` puts a new first axis on `{operand}` in the branch selected by the rank of `{tested}`: when `{operand}` is batched and `{tested}` is "
+                        f"not, its sample axis moves to position 1 and is broadcast against the next axis (branches, categories) of what it is combined with — with equal sizes "
+                        f"silently, sample s then uses the value of sample b")
+    rep.analysed['axis_0_operations_under_rank_tests'] = g
     rep.analysed['axis_operations_with_constant_axis'] = n
     if only is not None:
         return n
@@ -346,9 +482,17 @@ def check_front_axes(ctx, rep, only=None):
 RANK_TABLE = {
     # attribute chains with a documented layout: rank = len(sample_shape) + k
     'self.clock_model.rates': (1, "branch model rates are [..., branch]"),
+    'self.tree_model.node_heights': (1, "node heights are [..., node]"),
 }
 SHAPE_FROM_SAMPLE = ('sample_shape', 'batch_shape')
 
+
+def _shift(r, k):
+    if isinstance(r, int):
+        return r + k
+    if isinstance(r, tuple):
+        return ('rel', r[1], r[2] + k)
+    return None
 
 class Ranks:
     """flow-sensitive ranks of the form len(sample_shape) + k for values shaped by `<sample shape> + (…)`"""
@@ -408,6 +552,30 @@ class Ranks:
             return self.prop_rank(e.attr)
         if isinstance(e, ast.UnaryOp):
             return self.rank(e.operand, env)
+        if isinstance(e, ast.Constant) and isinstance(e.value, (int, float)) and not isinstance(e.value, bool):
+            return 'scalar'
+        if isinstance(e, ast.Subscript) and isinstance(e.slice, ast.Tuple) and e.slice.elts and isinstance(e.slice.elts[0], ast.Constant) and e.slice.elts[0].value is Ellipsis:
+            # x[..., a:b] keeps the axis, x[..., i] drops it: the result is known RELATIVE to x even when the rank of x is not
+            dropped = 0
+            for ix in e.slice.elts[1:]:
+                if isinstance(ix, ast.Slice):
+                    continue
+                if isinstance(ix, ast.Constant) and isinstance(ix.value, int) or (isinstance(ix, ast.UnaryOp) and isinstance(ix.op, ast.USub) and isinstance(ix.operand, ast.Constant)
+                                                                                   and isinstance(ix.operand.value, int)):
+                    dropped += 1
+                    continue
+                return None          # a name: an integer or an index tensor
+            rb = self.rank(e.value, env)
+            if rb is None and isinstance(e.value, ast.Name):
+                rb = ('rel', e.value.id, 0)
+            if isinstance(rb, int):
+                return rb - dropped
+            if isinstance(rb, tuple):
+                return ('rel', rb[1], rb[2] - dropped)
+            return None
+        if isinstance(e, ast.Subscript) and isinstance(e.slice, ast.Constant) and e.slice.value == 0 and isinstance(e.value, ast.Call) and ast.unparse(e.value.func) in ('torch.sort',) \
+                and e.value.args:
+            return self.rank(e.value.args[0], env)
         if isinstance(e, ast.Call) and isinstance(e.func, ast.Attribute):
             a = e.func.attr
             torch_fn = isinstance(e.func.value, ast.Name) and e.func.value.id == 'torch'
@@ -420,15 +588,17 @@ class Ranks:
             if recv is None:
                 return None
             if a == 'unsqueeze' and rest:
-                r = self.rank(recv, env)
-                return None if r is None else r + 1
+                return _shift(self.rank(recv, env), 1)
             if a == 'squeeze' and rest:
-                r = self.rank(recv, env)
-                return None if r is None else r - 1
-            if a in ('log', 'exp', 'clone', 'abs', 'sqrt', 'contiguous', 'to', 'double', 'float'):
+                return _shift(self.rank(recv, env), -1)
+            if a in ('log', 'exp', 'clone', 'abs', 'sqrt', 'contiguous', 'to', 'double', 'float', 'gather', 'pow', 'square', 'cumsum', 'flip'):
                 return self.rank(recv, env)
             if a == 'cat' and torch_fn and isinstance(e.args[0], (ast.Tuple, ast.List)):
                 rs = [self.rank(x, env) for x in e.args[0].elts]
+                if any(isinstance(r, (tuple, str)) for r in rs):
+                    rels = [r for r in rs if isinstance(r, tuple)]
+                    # pieces concatenated along the last axis with a piece of x: the result has the rank of that piece
+                    return rels[0] if rels and all(r == rels[0] for r in rels) else None
                 known = [r for r in rs if r is not None]
                 if len(known) == len(rs) and known:
                     self.decided += 1
@@ -441,7 +611,7 @@ class Ranks:
         if isinstance(e, ast.BinOp) and isinstance(e.op, ast.MatMult):
             # [S, d] @ [S, d, d]: matmul reads the first operand as ONE S×d matrix and broadcasts it against the batch of the second: the result is [S, S, d]
             l, r = self.rank(e.left, env), self.rank(e.right, env)
-            if l is not None and r is not None:
+            if isinstance(l, int) and isinstance(r, int):
                 if id(e) not in self._seen:
                     self._seen.add(id(e))
                     self.decided += 1
@@ -451,6 +621,17 @@ class Ranks:
             return None
         if isinstance(e, ast.BinOp) and isinstance(e.op, (ast.Add, ast.Sub, ast.Mult, ast.Div)):
             l, r = self.rank(e.left, env), self.rank(e.right, env)
+            if l == 'scalar' or r == 'scalar':
+                return r if l == 'scalar' else l
+            if isinstance(l, tuple) or isinstance(r, tuple):
+                if isinstance(l, tuple) and isinstance(r, tuple) and l[1] == r[1]:
+                    if id(e) not in self._seen:
+                        self._seen.add(id(e))
+                        self.decided += 1
+                        if l[2] != r[2]:
+                            self.reports.append((e, [l[2], r[2]]))
+                    return ('rel', l[1], max(l[2], r[2]))
+                return None
             if l is not None and r is not None:
                 if id(e) not in self._seen:
                     self._seen.add(id(e))
@@ -476,6 +657,17 @@ class Ranks:
             for t in st.targets:
                 if isinstance(t, ast.Name):
                     env[t.id] = v
+            return env
+        if isinstance(st, ast.AugAssign) and isinstance(st.target, ast.Name) and isinstance(st.op, (ast.Add, ast.Sub, ast.Mult, ast.Div)):
+            for x in ast.walk(st.value):
+                if isinstance(x, (ast.BinOp, ast.Call)):
+                    self.rank(x, env)
+            b = ast.BinOp(left=ast.Name(id=st.target.id, ctx=ast.Load()), op=st.op, right=st.value)
+            ast.copy_location(b, st)
+            ast.copy_location(b.left, st)
+            v = self.rank(b, env)
+            env = dict(env)
+            env[st.target.id] = v if v != 'scalar' else None
             return env
         if isinstance(st, ast.If):
             a, b = self.block(st.body, dict(env)), self.block(st.orelse, dict(env))
